@@ -1,5 +1,5 @@
 """C10 — field keys depend only on the selected fields (cut -f semantics)."""
-import itertools
+import itertools, os
 import pvlib
 from pvlib import hx
 
@@ -153,7 +153,11 @@ def run(ctx):
                                            no_input=True, summary=f"{o}: impl {x} model {y}")
     # ---------- through a tool: dedupe -f keeps one line per selected-fields class
     lines = [l for l in all_lines(5, 9)]
-    for spec_list, rs in (("1", [(0, 1)]), ("2", [(1, 2)]), ("1-2", [(0, 2)]), ("2-", [(1, KINF)]), ("1,3", [(0, 1), (2, 3)])):
+    # the same through dedupe, cache and shard, also for lists with a hole that start at field 1 and are open-ended
+    # (the tools have a whole-line fast path next to the field path)
+    specs = (("1", [(0, 1)]), ("2", [(1, 2)]), ("1-2", [(0, 2)]), ("2-", [(1, KINF)]), ("1,3", [(0, 1), (2, 3)]),
+             ("1,3-", [(0, 1), (2, KINF)]), ("-1,3-", [(0, 1), (2, KINF)]), ("3-,1", [(0, 1), (2, KINF)]))
+    for spec_list, rs in specs:
         ls = [l for l in lines if contains_all(l, 9, rs) and b"\n" not in l]
         rng.shuffle(ls)
         data = b"".join(l + b"\n" for l in ls)
@@ -174,6 +178,40 @@ def run(ctx):
                                    "kept_but_duplicate_key": [hx(x) for x in extra], "dropped_but_new_key": [hx(x) for x in missing]},
                                    summary=f"dedupe -f {spec_list}: kept {extra!r} although an earlier line has the same selected fields; "
                                            f"dropped {missing!r}")
+            continue
+        # shard -f: lines with the same selected fields are in the same file
+        import shutil
+        wd = os.path.join(ctx.tmp, "c10shard")
+        shutil.rmtree(wd, ignore_errors=True)
+        os.makedirs(wd)
+        names = [os.path.join(wd, "s%d" % i) for i in range(7)]
+        st, out, err = pvlib.run_tool([ctx.bin("shard"), "-f", spec_list] + names, data, env=pvlib.san_env())
+        ctx.count("shard-f", 1, [spec_list])
+        where, badpair = {}, None
+        cls = dict(zip(ls, sp))
+        for i, nm in enumerate(names):
+            for l in (open(nm, "rb").read().split(b"\n")[:-1] if os.path.exists(nm) else []):
+                k = cls.get(l)
+                if k in where and where[k][0] != i:
+                    badpair = (where[k][1], l, where[k][0], i)
+                where.setdefault(k, (i, l))
+        if st != 0 or badpair:
+            pvlib.report_violation(ctx, "shard-f:" + spec_list, {"argv": ["shard", "-f", spec_list, "s0..s6"], "stdin_hex": hx(data), "status": st,
+                                   "pair": [hx(x) for x in badpair[:2]] if badpair else None},
+                                   summary=f"shard -f {spec_list}: lines {badpair[0]!r} and {badpair[1]!r} have the same selected fields but are in files "
+                                           f"{badpair[2]} and {badpair[3]}" if badpair else f"shard -f {spec_list}: status {st}")
+            continue
+        # cache -k: the answer for a line is the child's answer to the first line with the same selected fields
+        st, out, err = pvlib.run_tool([ctx.bin("cache"), "-k", spec_list, "cat"], data, env=pvlib.san_env(), timeout=60)
+        ctx.count("cache-k", 1, [spec_list])
+        first = {}
+        wantc = b"".join(first.setdefault(s_, l) + b"\n" for l, s_ in zip(ls, sp))
+        if st != 0 or out != wantc:
+            gl, wl = out.split(b"\n"), wantc.split(b"\n")
+            k = next((i for i, (p_, q_) in enumerate(zip(gl, wl)) if p_ != q_), min(len(gl), len(wl)))
+            pvlib.report_violation(ctx, "cache-k:" + spec_list, {"argv": ["cache", "-k", spec_list, "cat"], "stdin_hex": hx(data), "status": st, "line": k},
+                                   summary=f"cache -k {spec_list} cat: output line {k} is {gl[k] if k < len(gl) else None!r}, the first line with the same "
+                                           f"selected fields is {wl[k] if k < len(wl) else None!r}")
 
 
 def replay(ctx, rp):
